@@ -243,14 +243,14 @@ Definition task_matches_req (x : ptask) (y : mtask) : Prop :=
   p_ecb x = m_ecb y /\ p_ccb x = m_ccb y /\ p_ismap x = is_map y /\ p_el x < m_idx y /\
   match m_kind y with
   | MMap _ => exists e, nth_error (m_els y) (p_el x) = Some e /\ e_bad e = false /\ p_w x = e_w e
-  | _ => p_w x = m_w y /\ m_bad y = false /\ p_el x < m_num y
+  | _ => p_w x = m_w y /\ nth (p_el x) (m_bad y) false = false /\ p_el x < m_num y
   end.
 
 Definition req_progress (s : state) (m : nat) (y : mtask) : Prop :=
   match m_kind y with
   | MMap _ => m_idx y <= length (m_els y) /\
               m_ncreated y + count e_bad (firstn (m_idx y) (m_els y)) = m_idx y
-  | _ => m_idx y <= m_num y /\ m_ncreated y = (if m_bad y then 0 else m_idx y)
+  | _ => m_idx y <= m_num y /\ m_ncreated y = ngood (m_bad y) (m_idx y)
   end.
 
 Definition req_final_ok (s : state) (y : mtask) : Prop :=
